@@ -96,11 +96,13 @@ def harness_dir():
         open(os.path.join(d, "Cargo.toml"), "w").write(toml)
     return d
 
-def harness_build(profile="tie", serde=True, target_dir=None):
+def harness_build(profile="tie", serde=True, target_dir=None, features=None):
     """cargo build of the harness against the repository's *current* working tree, hooks on."""
     cmd = ["cargo", "build", "--offline", "--profile", profile]
     if not serde:
         cmd += ["--no-default-features"]
+    if features:
+        cmd += ["--features", features]
     hd = harness_dir()
     if target_dir and REPO != "/repo":
         target_dir = os.path.join(hd, os.path.basename(target_dir))
